@@ -19,11 +19,11 @@ cp "$demo" "$wt/$pkgdir/zz_seeded_demo_test.go"
 git -C "$wt" apply "$diff" || { echo "VERIFY: diff does not apply in worktree"; exit 2; }
 (cd "$mod" && go test -vet=off -count=1 -run 'Demo' "$rel" >/tmp/tm_mut.log 2>&1); mut=$?
 rm -f "$wt/$pkgdir"/zz_seeded_demo_test.go
-(cd "$wt" && go build ./... && go test -vet=off -count=1 ./pkg/... ./cmd/... >/tmp/tm_suite.log 2>&1); s1=$?
+(cd "$wt" && go build ./pkg/... ./cmd/... && go test -vet=off -count=1 ./pkg/... ./cmd/... >/tmp/tm_suite.log 2>&1); s1=$?
 (cd "$wt/client" && go build ./... && go test -vet=off -count=1 ./... >>/tmp/tm_suite.log 2>&1); s2=$?
 git -C "$wt" checkout -q -- .
 echo "VERIFY $m: demo_on_clean_exit=$clean (want 0) demo_with_change_exit=$mut (want !=0) suite_with_change=$s1/$s2 (want 0/0)"
-if [ $clean -ne 0 ] || [ $mut -eq 0 ] || [ $s1 -ne 0 ] || [ $s2 -ne 0 ]; then echo "VERIFY FAILED"; tail -5 /tmp/tm_clean.log /tmp/tm_mut.log /tmp/tm_suite.log; exit 3; fi
+if [ $clean -ne 0 ] || [ $mut -eq 0 ] || [ $s1 -ne 0 ] || [ $s2 -ne 0 ]; then echo "VERIFY FAILED"; tail -n 5 /tmp/tm_clean.log /tmp/tm_mut.log /tmp/tm_suite.log; exit 3; fi
 [ -z "$props" ] && exit 0
 [ -z "$(git -C /repo status --porcelain)" ] || { echo "/repo not clean"; exit 2; }
 git -C /repo apply "$diff" || { echo "diff does not apply to /repo"; exit 2; }
